@@ -92,8 +92,8 @@ fn os2ip_mod(b: &[u8], p: u32) -> u32 {
 fn h2f_prime<const ML: usize, const DL: usize>() {
     let msg: [u8; ML] = any();
     let dst: [u8; DL] = any();
-    let hasher = <DefaultFieldHasher<Toy, 28> as HashToField<DF13>>::new(&dst);
-    let out: [DF13; 2] = hasher.hash_to_field::<2>(&msg);
+    let hasher = <DefaultFieldHasher<Toy, 28> as HashToField<PF13>>::new(&dst);
+    let out: [PF13; 2] = hasher.hash_to_field::<2>(&msg);
     let u = ref_expand8(&msg, &dst);
     crate::cover!(ML == 0 || msg[ML - 1] == 0x7f);
     let ok = out[0].val() == os2ip_mod(&u[0..4], 13) && out[1].val() == os2ip_mod(&u[4..8], 13);
@@ -104,8 +104,8 @@ fn h2f_prime<const ML: usize, const DL: usize>() {
 fn h2f_fp2<const ML: usize>() {
     let msg: [u8; ML] = any();
     let dst: [u8; 2] = any();
-    let hasher = <DefaultFieldHasher<Toy, 28> as HashToField<M13_2>>::new(&dst);
-    let out: [M13_2; 1] = hasher.hash_to_field::<1>(&msg);
+    let hasher = <DefaultFieldHasher<Toy, 28> as HashToField<F13_2>>::new(&dst);
+    let out: [F13_2; 1] = hasher.hash_to_field::<1>(&msg);
     let u = ref_expand8(&msg, &dst);
     crate::cover!(msg[0] == 1);
     let ok = out[0].c0.val() == os2ip_mod(&u[0..4], 13) && out[0].c1.val() == os2ip_mod(&u[4..8], 13);
@@ -160,17 +160,23 @@ fn swu_ref(u: u32) -> (u32, u32) {
 }
 
 crate::harnesses! { REG;
-    /// quick required | hash_to_field::<2> over F_13 through DefaultFieldHasher<toy digest, k = 28> (L = 4 bytes = digest block size): ALL messages of length 0, 1, 3 and ALL DSTs of length 2 == independent RFC 9380 expand_message_xmd + OS2IP mod p (Z_pad, I2OSP(len,2), I2OSP(0,1), DST', b_0/b_1/strxor chaining, chunk offsets)
+    /// quick required | hash_to_field::<2> over F_13 through DefaultFieldHasher<toy digest, k = 28> (L = 4 bytes = digest block size): ALL 1-byte messages and ALL 2-byte DSTs == independent RFC 9380 expand_message_xmd + OS2IP mod p (Z_pad, I2OSP(len,2), I2OSP(0,1), DST', b_0/b_1/strxor chaining, chunk offsets)
     #[unwind(12)]
-    fn c13_h2f_prime() { h2f_prime::<0, 2>(); h2f_prime::<1, 2>(); h2f_prime::<3, 2>() }
-    /// quick required | hash_to_field::<2> over F_13 with an empty DST and a 4-byte DST, ALL 2-byte messages
+    fn c13_h2f_prime_m1() { h2f_prime::<1, 2>() }
+    /// quick required | hash_to_field::<2> over F_13: ALL 3-byte messages, ALL 2-byte DSTs
     #[unwind(12)]
-    fn c13_h2f_prime_dst() { h2f_prime::<2, 0>(); h2f_prime::<2, 4>() }
+    fn c13_h2f_prime_m3() { h2f_prime::<3, 2>() }
+    /// quick required | hash_to_field::<2> over F_13: the empty message with ALL 2-byte DSTs, and ALL 2-byte messages with the empty DST
+    #[unwind(12)]
+    fn c13_h2f_prime_empty() { h2f_prime::<0, 2>(); h2f_prime::<2, 0>() }
+    /// thorough required timeout=2400 | hash_to_field::<2> over F_13 with a 4-byte DST, ALL 2-byte messages
+    #[unwind(12)]
+    fn c13_h2f_prime_dst4() { h2f_prime::<2, 4>() }
     /// quick required | hash_to_field::<1> over Fp2/F_13: ALL 2-byte messages, ALL 2-byte DSTs: coordinates c0, c1 from consecutive chunks
     #[unwind(12)]
     fn c13_h2f_fp2() { h2f_fp2::<2>() }
-    /// quick required | simplified SWU (SWUMap) on the toy curve SwCof4 over F_13 for ALL field elements u (u = 0 and the exceptional denominators included): output == RFC 9380 6.6.2 reference, on the curve, sgn0(y) == sgn0(u)
-    #[unwind(16)]
+    /// quick required unwindset=BitIteratorBE:66,>::pow:8,SqrtPrecomputation:7 | simplified SWU (SWUMap) on the toy curve SwCof4 over F_13 for ALL field elements u (u = 0 and the exceptional denominators included): output == RFC 9380 6.6.2 reference, on the curve, sgn0(y) == sgn0(u)
+    #[unwind(20)]
     fn c13_swu_all_u() {
         let u: u32 = any();
         let u = u & 0xf;
